@@ -140,59 +140,106 @@ theorem _root_.KafVerif.C44.batch_reads_match (s : State) (hc : Consistent s) (h
 
 /-! ### (2) history level -/
 
+/-- a failing primary call (fault used up or not) leaves both buckets' contents as they were -/
+theorem consistent_of_same_content (s t : State) (hc : Consistent s)
+    (h1 : t.rep.seg = s.rep.seg) (h2 : t.rep.idx = s.rep.idx) (h3 : t.pri.seg = s.pri.seg) (h4 : t.pri.idx = s.pri.idx) :
+    Consistent t := by
+  unfold Consistent; rw [h1, h2, h3, h4]; exact hc
+
 theorem consistent_step (s : State) (op : Op) (hc : Consistent s) (hs : Safe s op) : Consistent (step s op) := by
+  have hc0 := hc
   obtain ⟨h1, h2⟩ := hc
   cases op with
   | upSeg k b =>
-    refine ⟨?_, h2⟩
-    intro k' d hd
-    simp only [step, upd] at hd ⊢
-    by_cases hk : k' = k
-    · subst hk
-      rcases hs with hs | hs
-      · rw [hs] at hd; cases hd
-      · rw [hs] at hd; simp at hd; simp [hd]
-    · simp [hk]; exact h1 k' d hd
+    by_cases hf : (s.pri.opFault .uploadSegment).fires = true
+    · exact consistent_of_same_content s _ hc0 rfl rfl
+        (by simp [step, stepOut, dualUploadSegment, onPrimary, Bucket.uploadSegment, Bucket.call, hf])
+        (by simp [step, stepOut, dualUploadSegment, onPrimary, Bucket.uploadSegment, Bucket.call, hf])
+    · refine ⟨?_, ?_⟩
+      · intro k' d hd
+        simp only [step, stepOut, dualUploadSegment, onPrimary, Bucket.uploadSegment, Bucket.call, hf, Bool.false_eq_true, if_false] at hd ⊢
+        simp only [upd] at hd ⊢
+        by_cases hk : k' = k
+        · subst hk
+          rcases hs with hs | hs
+          · rw [hs] at hd; cases hd
+          · rw [hs] at hd; simp at hd; simp [hd]
+        · simp [hk]; exact h1 k' d hd
+      · intro k' d hd
+        simp only [step, stepOut, dualUploadSegment, onPrimary, Bucket.uploadSegment, Bucket.call, hf, Bool.false_eq_true, if_false] at hd ⊢
+        exact h2 k' d hd
   | upIdx k b =>
-    refine ⟨h1, ?_⟩
-    intro k' d hd
-    simp only [step, upd] at hd ⊢
-    by_cases hk : k' = k
-    · subst hk
-      rcases hs with hs | hs
-      · rw [hs] at hd; cases hd
-      · rw [hs] at hd; simp at hd; simp [hd]
-    · simp [hk]; exact h2 k' d hd
+    by_cases hf : (s.pri.opFault .uploadIndex).fires = true
+    · exact consistent_of_same_content s _ hc0 rfl rfl
+        (by simp [step, stepOut, dualUploadIndex, onPrimary, Bucket.uploadIndex, Bucket.call, hf])
+        (by simp [step, stepOut, dualUploadIndex, onPrimary, Bucket.uploadIndex, Bucket.call, hf])
+    · refine ⟨?_, ?_⟩
+      · intro k' d hd
+        simp only [step, stepOut, dualUploadIndex, onPrimary, Bucket.uploadIndex, Bucket.call, hf, Bool.false_eq_true, if_false] at hd ⊢
+        exact h1 k' d hd
+      · intro k' d hd
+        simp only [step, stepOut, dualUploadIndex, onPrimary, Bucket.uploadIndex, Bucket.call, hf, Bool.false_eq_true, if_false] at hd ⊢
+        simp only [upd] at hd ⊢
+        by_cases hk : k' = k
+        · subst hk
+          rcases hs with hs | hs
+          · rw [hs] at hd; cases hd
+          · rw [hs] at hd; simp at hd; simp [hd]
+        · simp [hk]; exact h2 k' d hd
   | delSeg k =>
-    refine ⟨?_, h2⟩
-    intro k' d hd
-    simp only [step, upd] at hd ⊢
-    by_cases hk : k' = k
-    · subst hk; rw [hs] at hd; cases hd
-    · simp [hk]; exact h1 k' d hd
+    by_cases hf : (s.pri.opFault .deleteSegment).fires = true
+    · exact consistent_of_same_content s _ hc0 rfl rfl
+        (by simp [step, stepOut, dualDeleteSegment, onPrimary, Bucket.deleteSegment, Bucket.call, hf])
+        (by simp [step, stepOut, dualDeleteSegment, onPrimary, Bucket.deleteSegment, Bucket.call, hf])
+    · refine ⟨?_, ?_⟩
+      · intro k' d hd
+        simp only [step, stepOut, dualDeleteSegment, onPrimary, Bucket.deleteSegment, Bucket.call, hf, Bool.false_eq_true, if_false] at hd ⊢
+        simp only [upd] at hd ⊢
+        by_cases hk : k' = k
+        · subst hk; rw [hs] at hd; cases hd
+        · simp [hk]; exact h1 k' d hd
+      · intro k' d hd
+        simp only [step, stepOut, dualDeleteSegment, onPrimary, Bucket.deleteSegment, Bucket.call, hf, Bool.false_eq_true, if_false] at hd ⊢
+        exact h2 k' d hd
   | delIdx k =>
-    refine ⟨h1, ?_⟩
-    intro k' d hd
-    simp only [step, upd] at hd ⊢
-    by_cases hk : k' = k
-    · subst hk; rw [hs] at hd; cases hd
-    · simp [hk]; exact h2 k' d hd
+    by_cases hf : (s.pri.opFault .deleteIndex).fires = true
+    · exact consistent_of_same_content s _ hc0 rfl rfl
+        (by simp [step, stepOut, dualDeleteIndex, onPrimary, Bucket.deleteIndex, Bucket.call, hf])
+        (by simp [step, stepOut, dualDeleteIndex, onPrimary, Bucket.deleteIndex, Bucket.call, hf])
+    · refine ⟨?_, ?_⟩
+      · intro k' d hd
+        simp only [step, stepOut, dualDeleteIndex, onPrimary, Bucket.deleteIndex, Bucket.call, hf, Bool.false_eq_true, if_false] at hd ⊢
+        exact h1 k' d hd
+      · intro k' d hd
+        simp only [step, stepOut, dualDeleteIndex, onPrimary, Bucket.deleteIndex, Bucket.call, hf, Bool.false_eq_true, if_false] at hd ⊢
+        simp only [upd] at hd ⊢
+        by_cases hk : k' = k
+        · subst hk; rw [hs] at hd; cases hd
+        · simp [hk]; exact h2 k' d hd
+  | list =>
+    refine consistent_of_same_content s _ hc0 rfl rfl ?_ ?_ <;>
+      (simp only [step, stepOut, dualListSegments, onPrimary, Bucket.listSegments, Bucket.call]; split <;> rfl)
+  | ensure =>
+    refine consistent_of_same_content s _ hc0 rfl rfl ?_ ?_ <;>
+      (simp only [step, stepOut, dualEnsureBucket, onPrimary, Bucket.ensureBucket, Bucket.call]; split <;> rfl)
   | replSeg k =>
     refine ⟨?_, h2⟩
     intro k' d hd
-    simp only [step, upd] at hd ⊢
+    simp only [step, stepOut, upd] at hd ⊢
     by_cases hk : k' = k
     · subst hk; simpa using hd
     · simp [hk] at hd; exact h1 k' d hd
   | replIdx k =>
     refine ⟨h1, ?_⟩
     intro k' d hd
-    simp only [step, upd] at hd ⊢
+    simp only [step, stepOut, upd] at hd ⊢
     by_cases hk : k' = k
     · subst hk; simpa using hd
     · simp [hk] at hd; exact h2 k' d hd
   | rFail k on => exact ⟨h1, h2⟩
   | pFail k on => exact ⟨h1, h2⟩
+  | pOpFail m f => exact ⟨h1, h2⟩
+  | rOpFail m f => exact ⟨h1, h2⟩
 
 theorem consistent_run (s : State) (ops : List Op) (hc : Consistent s) (hs : SafeRun s ops) :
     Consistent (ops.foldl step s) := by
@@ -223,15 +270,137 @@ theorem _root_.KafVerif.C44.reads_match_partial (ops : List Op) (hs : SafeRun St
     dualReadSeg (run ops) k r = (run ops).pri.readSeg k r :=
   (KafVerif.C44.reads_match_safe_history ops hs hp k r).1
 
-/-- **Writes and listings go to the primary only**: no dual-client operation touches the replica
-bucket, an upload/delete changes the primary exactly like a direct call, listing is the primary's. -/
+/-! ### writes and listings: the primary's answer — value OR error — whatever the replica holds -/
+
+/-- **Writes and listings go to the primary only**: for EVERY state (any lag, any faults on either side) no
+dual-client write/list/ensure call touches the replica bucket; when the primary's method is healthy an
+upload/delete changes the primary exactly like a direct call and the listing is the primary's listing. -/
 theorem _root_.KafVerif.C44.writes_primary (s : State) (k : Nat) (b : Bytes) :
     (step s (.upSeg k b)).rep = s.rep ∧ (step s (.upIdx k b)).rep = s.rep ∧
     (step s (.delSeg k)).rep = s.rep ∧ (step s (.delIdx k)).rep = s.rep ∧
-    (step s (.upSeg k b)).pri.seg k = some b ∧ (step s (.upIdx k b)).pri.idx k = some b ∧
-    (step s (.delSeg k)).pri.seg k = none ∧ (step s (.delIdx k)).pri.idx k = none ∧
-    dualList s = s.pri.list := by
-  simp [step, upd, dualList]
+    (step s .list).rep = s.rep ∧ (step s .ensure).rep = s.rep ∧
+    ((s.pri.opFault .uploadSegment).fires = false → (step s (.upSeg k b)).pri.seg k = some b) ∧
+    ((s.pri.opFault .uploadIndex).fires = false → (step s (.upIdx k b)).pri.idx k = some b) ∧
+    ((s.pri.opFault .deleteSegment).fires = false → (step s (.delSeg k)).pri.seg k = none) ∧
+    ((s.pri.opFault .deleteIndex).fires = false → (step s (.delIdx k)).pri.idx k = none) ∧
+    ((s.pri.opFault .listSegments).fires = false → (dualListSegments s).2 = .ok s.pri.list) := by
+  refine ⟨rfl, rfl, rfl, rfl, rfl, rfl, ?_, ?_, ?_, ?_, ?_⟩ <;> intro h <;>
+    simp [step, stepOut, dualUploadSegment, dualUploadIndex, dualDeleteSegment, dualDeleteIndex, dualListSegments, onPrimary,
+      Bucket.uploadSegment, Bucket.uploadIndex, Bucket.deleteSegment, Bucket.deleteIndex, Bucket.listSegments, Bucket.call, upd, h]
+
+/-- **Listing = the primary's answer, including its error** (faulty primary, arbitrary replica): the result is what
+`d.write.ListSegments` returned, the primary moves as under a direct call, the replica is not involved. -/
+theorem _root_.KafVerif.C44.list_primary (s : State) :
+    (dualListSegments s).2 = s.pri.listSegments.2 ∧ (dualListSegments s).1.pri = s.pri.listSegments.1 ∧
+    (dualListSegments s).1.rep = s.rep := ⟨rfl, rfl, rfl⟩
+
+/-- a listing through the dual client is the primary's listing or an error — nothing else -/
+theorem _root_.KafVerif.C44.list_primary_or_error (s : State) :
+    (dualListSegments s).2 = .err ∨ (dualListSegments s).2 = .ok s.pri.list := by
+  simp only [dualListSegments, onPrimary, Bucket.listSegments, Bucket.call]
+  split
+  · exact Or.inl rfl
+  · exact Or.inr rfl
+
+/-- **A failing primary List fails the dual List** (transient or persistent fault), whatever the replica holds or
+would answer; bucket contents do not move. -/
+theorem _root_.KafVerif.C44.list_error_propagates (s : State) (h : (s.pri.opFault .listSegments).fires = true) :
+    (dualListSegments s).2 = .err ∧ (dualListSegments s).1.rep = s.rep ∧
+    (dualListSegments s).1.pri.seg = s.pri.seg ∧ (dualListSegments s).1.pri.idx = s.pri.idx ∧
+    (dualListSegments s).1.pri.keys = s.pri.keys := by
+  simp [dualListSegments, onPrimary, Bucket.listSegments, Bucket.call, h]
+
+/-- **Never the replica's listing**: while the replica lags (its listing differs from the primary's), no dual
+listing — with or without a primary fault — equals the replica's listing. -/
+theorem _root_.KafVerif.C44.list_never_replica (s : State) (hlag : s.rep.list ≠ s.pri.list) :
+    (dualListSegments s).2 ≠ .ok s.rep.list := by
+  rcases KafVerif.C44.list_primary_or_error s with h | h <;> rw [h]
+  · intro hh; cases hh
+  · intro hh; injection hh with hh; exact hlag hh.symm
+
+/-- a transient (`once`) primary List fault: the first call fails, the caller's retry gets the primary's listing -/
+theorem _root_.KafVerif.C44.list_retry_after_transient_fault (s : State) (h : s.pri.opFault .listSegments = .once) :
+    (dualListSegments s).2 = .err ∧ (dualListSegments (dualListSegments s).1).2 = .ok s.pri.list := by
+  simp [dualListSegments, onPrimary, Bucket.listSegments, Bucket.call, h, Fault.fires, Fault.next, updM, Bucket.list]
+
+/-- a persistent (`always`) primary List fault: every retry fails -/
+theorem _root_.KafVerif.C44.list_persistent_fault (s : State) (h : s.pri.opFault .listSegments = .always) :
+    (dualListSegments s).2 = .err ∧ (dualListSegments (dualListSegments s).1).2 = .err := by
+  simp [dualListSegments, onPrimary, Bucket.listSegments, Bucket.call, h, Fault.fires, Fault.next, updM]
+
+/-- **Every write/ensure call returns the primary's answer, including its error**, the primary moves as under a
+direct call and the replica is not involved. -/
+theorem _root_.KafVerif.C44.write_result_is_primary_answer (s : State) (k : Nat) (b : Bytes) :
+    (dualUploadSegment s k b = ({ s with pri := (s.pri.uploadSegment k b).1 }, (s.pri.uploadSegment k b).2)) ∧
+    (dualUploadIndex s k b = ({ s with pri := (s.pri.uploadIndex k b).1 }, (s.pri.uploadIndex k b).2)) ∧
+    (dualDeleteSegment s k = ({ s with pri := (s.pri.deleteSegment k).1 }, (s.pri.deleteSegment k).2)) ∧
+    (dualDeleteIndex s k = ({ s with pri := (s.pri.deleteIndex k).1 }, (s.pri.deleteIndex k).2)) ∧
+    (dualEnsureBucket s = ({ s with pri := s.pri.ensureBucket.1 }, s.pri.ensureBucket.2)) := ⟨rfl, rfl, rfl, rfl, rfl⟩
+
+/-- what a failed call leaves behind: same objects in both buckets -/
+def SameContent (t s : State) : Prop :=
+  t.rep = s.rep ∧ t.pri.seg = s.pri.seg ∧ t.pri.idx = s.pri.idx ∧ t.pri.keys = s.pri.keys ∧ t.pri.failing = s.pri.failing
+
+/-- **A failing primary write fails the dual write and changes no object** (upload not stored anywhere, delete not
+applied, nothing sent to the replica). -/
+theorem _root_.KafVerif.C44.write_error_propagates (s : State) (k : Nat) (b : Bytes) :
+    ((s.pri.opFault .uploadSegment).fires = true → (dualUploadSegment s k b).2 = .err ∧ SameContent (dualUploadSegment s k b).1 s) ∧
+    ((s.pri.opFault .uploadIndex).fires = true → (dualUploadIndex s k b).2 = .err ∧ SameContent (dualUploadIndex s k b).1 s) ∧
+    ((s.pri.opFault .deleteSegment).fires = true → (dualDeleteSegment s k).2 = .err ∧ SameContent (dualDeleteSegment s k).1 s) ∧
+    ((s.pri.opFault .deleteIndex).fires = true → (dualDeleteIndex s k).2 = .err ∧ SameContent (dualDeleteIndex s k).1 s) ∧
+    ((s.pri.opFault .ensureBucket).fires = true → (dualEnsureBucket s).2 = .err ∧ SameContent (dualEnsureBucket s).1 s) := by
+  refine ⟨?_, ?_, ?_, ?_, ?_⟩ <;> intro h <;>
+    simp [SameContent, dualUploadSegment, dualUploadIndex, dualDeleteSegment, dualDeleteIndex, dualEnsureBucket, onPrimary,
+      Bucket.uploadSegment, Bucket.uploadIndex, Bucket.deleteSegment, Bucket.deleteIndex, Bucket.ensureBucket, Bucket.call, h]
+
+/-! ### history level: what writers and listers see never depends on the replica -/
+
+/-- environment events that concern the replica only: replication catching up, replica read faults, replica method faults -/
+def Op.isReplicaEnv : Op → Bool
+  | .replSeg _ | .replIdx _ | .rFail _ _ | .rOpFail _ _ => true
+  | _ => false
+
+theorem stepOut_pri_congr (s s' : State) (h : s.pri = s'.pri) (op : Op) :
+    (stepOut s op).1.pri = (stepOut s' op).1.pri ∧ (stepOut s op).2 = (stepOut s' op).2 := by
+  cases op <;>
+    simp [stepOut, dualUploadSegment, dualUploadIndex, dualDeleteSegment, dualDeleteIndex, dualListSegments, dualEnsureBucket,
+      onPrimary, h]
+
+theorem stepOut_replicaEnv (s : State) (op : Op) (h : op.isReplicaEnv = true) :
+    (stepOut s op).1.pri = s.pri ∧ (stepOut s op).2 = .env := by
+  cases op <;> simp [Op.isReplicaEnv] at h <;> simp [stepOut]
+
+/-- the answers callers got (environment events removed) -/
+def answers (o : List Out) : List Out := o.filter fun x => decide (x ≠ .env)
+
+/-- **Writes and listings never depend on the replica** — for EVERY history (uploads, deletes, lists, ensures,
+primary faults of every method, replication events in any order/lag, replica read faults, replica method
+faults) and any two start states with the same primary: removing all replica events from the history changes
+neither any answer a writer/lister got (value or error) nor the primary bucket. -/
+theorem writes_lists_independent_of_replica_from (ops : List Op) (s s' : State) (h : s.pri = s'.pri) :
+    answers (trace s ops) = answers (trace s' (ops.filter fun o => !o.isReplicaEnv)) ∧
+    (ops.foldl step s).pri = ((ops.filter fun o => !o.isReplicaEnv).foldl step s').pri := by
+  induction ops generalizing s s' with
+  | nil => exact ⟨rfl, h⟩
+  | cons op ops ih =>
+    by_cases he : op.isReplicaEnv = true
+    · have h1 := stepOut_replicaEnv s op he
+      have ih' := ih (step s op) s' (by rw [← h]; exact h1.1)
+      simp only [List.filter_cons, he, Bool.not_true, Bool.false_eq_true, if_false, trace, List.foldl_cons]
+      refine ⟨?_, ih'.2⟩
+      rw [← ih'.1, h1.2]
+      simp [answers]
+    · have h1 := stepOut_pri_congr s s' h op
+      have ih' := ih (step s op) (step s' op) h1.1
+      simp only [List.filter_cons, he, Bool.not_false, if_true, trace, List.foldl_cons]
+      refine ⟨?_, ih'.2⟩
+      simp only [answers, List.filter_cons] at ih' ⊢
+      rw [h1.2, ih'.1]
+
+theorem _root_.KafVerif.C44.writes_lists_independent_of_replica (ops : List Op) :
+    answers (trace State.init ops) = answers (trace State.init (ops.filter fun o => !o.isReplicaEnv)) ∧
+    (run ops).pri = (run (ops.filter fun o => !o.isReplicaEnv)).pri :=
+  writes_lists_independent_of_replica_from ops State.init State.init rfl
 
 /-- **The replica is only ever asked to download**: whatever the state and the call, every backend
 call that reaches the replica is `DownloadSegment` or `DownloadIndex`. -/
@@ -245,28 +414,44 @@ theorem _root_.KafVerif.C44.replica_read_only (s : State) (c : Call) :
     split at hbc <;> simp at hbc <;> rcases hbc with rfl | rfl <;> simp_all
   all_goals (simp at hbc; subst hbc; simp at hrep)
 
-/-- **Read your write**: right after a replication-safe upload the dual client serves the new
-bytes, whatever the replica's lag and faults. -/
+/-- **Read your write**: right after a replication-safe upload that the primary accepted the dual client serves
+the new bytes, whatever the replica's lag and faults. -/
 theorem _root_.KafVerif.C44.read_your_write (ops : List Op) (k : Nat) (b : Bytes)
-    (hs : SafeRun State.init (ops ++ [.upSeg k b])) (hp : PrimaryHealthy (run (ops ++ [.upSeg k b]))) :
+    (hs : SafeRun State.init (ops ++ [.upSeg k b])) (hp : PrimaryHealthy (run (ops ++ [.upSeg k b])))
+    (hu : ((run ops).pri.opFault .uploadSegment).fires = false) :
     dualReadSeg (run (ops ++ [.upSeg k b])) k none = .ok b := by
   rw [(KafVerif.C44.reads_match_safe_history _ hs hp k none).1]
   have hp' := hp k
-  simp only [run, List.foldl_append, List.foldl_cons, List.foldl_nil] at hp' ⊢
-  simp only [step] at hp'
-  simp [Bucket.readSeg, step, upd, rangeRead, hp']
+  simp only [run, List.foldl_append, List.foldl_cons, List.foldl_nil] at hp' hu ⊢
+  simp only [step, stepOut, dualUploadSegment, onPrimary, Bucket.uploadSegment, Bucket.call, hu] at hp' ⊢
+  simp at hp'
+  simp [Bucket.readSeg, upd, rangeRead, hp']
 
 /-! ### (3) the unrestricted statement fails: lagging behind an overwrite or a delete -/
+
+theorem healthy_of_no_fail_ops (ops : List Op) (h : ∀ op ∈ ops, ∀ k on, op ≠ .pFail k on) (s : State)
+    (hs : PrimaryHealthy s) : PrimaryHealthy (ops.foldl step s) := by
+  induction ops generalizing s with
+  | nil => exact hs
+  | cons op ops ih =>
+    apply ih (fun o ho => h o (List.mem_cons_of_mem _ ho))
+    intro k
+    have hop := h op (List.mem_cons_self ..)
+    cases op <;>
+      simp only [step, stepOut, dualUploadSegment, dualUploadIndex, dualDeleteSegment, dualDeleteIndex, dualListSegments,
+        dualEnsureBucket, onPrimary, Bucket.uploadSegment, Bucket.uploadIndex, Bucket.deleteSegment, Bucket.deleteIndex,
+        Bucket.listSegments, Bucket.ensureBucket, Bucket.call] <;> try (split <;> exact hs k)
+    all_goals first | exact hs k | (exfalso; exact hop _ _ rfl)
 
 theorem _root_.KafVerif.C44.stale_overwrite_violates :
     ∃ ops k, PrimaryHealthy (run ops) ∧ dualReadSeg (run ops) k none ≠ (run ops).pri.readSeg k none := by
   refine ⟨[.upSeg 1 [1], .replSeg 1, .upSeg 1 [2]], 1, ?_, by decide⟩
-  intro k; simp [run, step, State.init, Bucket.empty]
+  exact healthy_of_no_fail_ops _ (by simp) _ (fun _ => rfl)
 
 theorem _root_.KafVerif.C44.stale_delete_violates :
     ∃ ops k, PrimaryHealthy (run ops) ∧ dualReadSeg (run ops) k none ≠ (run ops).pri.readSeg k none := by
   refine ⟨[.upSeg 1 [1], .replSeg 1, .delSeg 1], 1, ?_, by decide⟩
-  intro k; simp [run, step, State.init, Bucket.empty]
+  exact healthy_of_no_fail_ops _ (by simp) _ (fun _ => rfl)
 
 theorem _root_.KafVerif.C44.full_statement_false : ¬ FullStatement := by
   intro h
@@ -275,10 +460,29 @@ theorem _root_.KafVerif.C44.full_statement_false : ¬ FullStatement := by
 
 /-! non-vacuity: a safe history with lag, a fault and a fallback -/
 example : SafeRun State.init [.upSeg 1 [1, 2, 3], .upSeg 2 [9], .replSeg 1, .rFail 1 true, .upIdx 1 [7]] := by
-  simp [SafeRun, Safe, step, upd, State.init, Bucket.empty]
+  simp [SafeRun, Safe, step, stepOut, dualUploadSegment, onPrimary, Bucket.uploadSegment, Bucket.call, Fault.fires, upd,
+    State.init, Bucket.empty]
 example : dualReadSeg (run [.upSeg 1 [1, 2, 3], .upSeg 2 [9], .replSeg 1, .rFail 1 true]) 1 (some ⟨1, 5⟩) = .ok [2, 3] := by decide
 example : dualReadSeg (run [.upSeg 1 [1, 2, 3], .replSeg 1]) 1 (some ⟨3, 5⟩) = .err := by decide
 example : dualReadBatch (run [.upSeg 1 [1, 2, 3, 4, 5, 6]]) [(1, some ⟨0, 2⟩), (1, some ⟨0, 4⟩), (1, none)] =
     [.ok [1, 2, 3], .ok [1, 2, 3, 4, 5], .ok [1, 2, 3, 4, 5, 6]] := by decide
+
+/-! non-vacuity of the faulty-primary theorems: the seeded situation — the replica lags (holds segment 1 only), the
+primary holds 1 and 2, the primary's List fails once: the dual List fails (it does NOT return the replica's `[(1,3)]`),
+the retry returns the primary's listing; with a persistent fault the retry fails too; a failed upload stores nothing. -/
+def lagging : List Op := [.upSeg 1 [1, 2, 3], .replSeg 1, .upSeg 2 [4, 5]]
+example : (run lagging).rep.list = [(1, 3)] ∧ (run lagging).pri.list = [(2, 2), (1, 3)] := by decide
+example : (run lagging).rep.list ≠ (run lagging).pri.list := by decide
+example : ((run (lagging ++ [.pOpFail .listSegments .once])).pri.opFault .listSegments).fires = true := by decide
+example : trace State.init (lagging ++ [.pOpFail .listSegments .once, .list, .list]) =
+    [.unit (.ok ()), .env, .unit (.ok ()), .env, .listing .err, .listing (.ok [(2, 2), (1, 3)])] := by decide
+example : trace State.init (lagging ++ [.pOpFail .listSegments .always, .list, .list, .pOpFail .listSegments .none, .list]) =
+    [.unit (.ok ()), .env, .unit (.ok ()), .env, .listing .err, .listing .err, .env, .listing (.ok [(2, 2), (1, 3)])] := by decide
+example : trace State.init [.pOpFail .uploadSegment .once, .upSeg 1 [1], .list, .upSeg 1 [1], .list,
+      .pOpFail .deleteSegment .always, .delSeg 1, .delSeg 1, .list, .pOpFail .ensureBucket .once, .ensure, .ensure] =
+    [.env, .unit .err, .listing (.ok []), .unit (.ok ()), .listing (.ok [(1, 1)]),
+     .env, .unit .err, .unit .err, .listing (.ok [(1, 1)]), .env, .unit .err, .unit (.ok ())] := by decide
+example : answers (trace State.init (lagging ++ [.rOpFail .listSegments .always, .list])) =
+    answers (trace State.init [.upSeg 1 [1, 2, 3], .upSeg 2 [4, 5], .list]) := by decide
 
 end KafVerif.DualS3
